@@ -84,6 +84,9 @@ class ManageProcesses(object):
         obs['count'] = len(w.processes)
         obs['status'] = w._status
         obs['table_same'] = w.processes == before
+        signalled = set(s[0] for s in k.signals)
+        obs['silently_dropped'] = [pid for pid in procs if pid not in w.processes and pid not in signalled and
+                                   obs['events'].count('reap') == 0]
         obs['unlisted_alive'] = [pid for pid, p in procs.items() if pid not in w.processes and p.status == 0 and
                                  not any(s[0] == pid for s in k.signals)]
         return obs
@@ -107,6 +110,8 @@ class ManageProcesses(object):
             bad.add('post[no-overshoot]')
         if obs['unlisted_alive']:
             bad.add('inv-pres[1]')        # DROPDEAD: a live worker was unlisted without being terminated
+        if obs.get('silently_dropped') and obs['status'] != 'stopped':
+            bad.add('post[dead-removed-are-reaped]')
         return bad
 
 
